@@ -189,7 +189,7 @@ def run(inst, claims_fn, witness_fn=None, engine=None, timeout_ms=10000, split_d
     def confirm(eng, model, v, cname):
         table = ModelTable(model)
         thr = threshold_values(model, cfg)
-        if any(v.get('orders', [])):
+        if isinstance(v, dict) and any(v.get('orders', [])):
             thr['__orders__'] = [{k: list(p) for k, p in rec.items()} for rec in v['orders']]
         return confirm_on_table(table, thr)
 
